@@ -101,6 +101,7 @@ const N_CID: usize = 52;
 
 #[cfg_attr(kani, kani::proof)]
 #[cfg_attr(kani, kani::unwind(9))]
+#[allow(unused_variables)]
 fn verif_packet_initial_cid_bound() {
     let orig: [u8; N_CID] = kani::any();
     let len: usize = kani::any();
